@@ -177,12 +177,12 @@ def listing_text(instrs):
     return "\n".join(instr_text(d).replace("jal x", "jal x") for d in instrs)
 
 
-def asm_text(instrs):
+def asm_text(instrs, base=0):
     """assembler text of a direct program (jal needs an absolute target)"""
     out = []
     for i, d in enumerate(instrs):
         if d["m"] == "jal":
-            out.append("jal x%d, %d" % (d["rd"], 4 * i + d["imm"]))
+            out.append("jal x%d, %d" % (d["rd"], base + 4 * i + d["imm"]))
         else:
             out.append(instr_text(d))
     return "\n".join(out)
